@@ -597,7 +597,9 @@ func (s *Session) Request(input string) (st Step) {
 				// engine-per-request: the failed request is saved without pending code, and
 				// the next request starts the session over at the entry node (client flags
 				// and language kept)
-				s.reading, s.matched, s.waiting = false, false, false
+				// (READIN stays as the failed run left it: nothing between the failure and the
+				// restart clears it)
+				s.matched, s.waiting = false, false
 				return
 			}
 			st.Bail = "after an execution error nothing is specified"
